@@ -1277,6 +1277,19 @@ func substituteObj(info *types.Info, root ast.Node, obj types.Object, repl ast.E
 				return true
 			}
 		}
+		// `p.f` with p standing for `&x` is x.f
+		if sel, isSel := c.Parent().(*ast.SelectorExpr); isSel && sel.X == ast.Expr(id) {
+			if u, isU := ast.Unparen(repl).(*ast.UnaryExpr); isU && u.Op == token.AND {
+				m := map[ast.Node]ast.Node{}
+				cp := cloneNode(u.X, m).(ast.Expr)
+				copyInfo(info, m)
+				setPos(reflect.ValueOf(cp), id.Pos())
+				if _, isName := cp.(*ast.Ident); isName {
+					c.Replace(cp)
+					return false
+				}
+			}
+		}
 		m := map[ast.Node]ast.Node{}
 		cp := cloneNode(repl, m).(ast.Expr)
 		copyInfo(info, m)
